@@ -1,6 +1,6 @@
 (* Lemmas about Model/Imageraw.v (property C09). *)
 From EG Require Import Base.Prelude Base.Lemmas Model.Geometry Proofs.Geometry Model.Imageraw.
-From Coq Require Import ZifyBool.
+From Coq Require Import ZifyBool FinFun Sorting.Sorted.
 
 Ltac Zify.zify_post_hook ::= Z.to_euclidean_division_equations.
 Set Default Timeout 60.
@@ -503,4 +503,179 @@ Proof.
     constructor; [|constructor]. split; [reflexivity|].
     apply (f_equal (@length _)) in Hm. rewrite !map_length in Hm. rewrite Hm, length_row_major. lia.
   - split; [constructor|]. split; [cbn [length]; lia|]. congruence.
+Qed.
+
+(* ---- the pixel map a list of calls leaves on a target with bounding box bb ------------ *)
+Definition writes (bb : rect) (calls : list icall) : list (point * Z) := flat_map (call_writes bb) calls.
+
+(* the colour written last to q, None when q was never written *)
+Fixpoint last_write (q : point) (ws : list (point * Z)) : option Z :=
+  match ws with
+  | [] => None
+  | (p, c) :: t =>
+      match last_write q t with
+      | Some v => Some v
+      | None => if point_eqb p q then Some c else None
+      end
+  end.
+
+Definition render (bb : rect) (calls : list icall) (q : point) : option Z := last_write q (writes bb calls).
+
+Lemma point_eqb_eq a b : point_eqb a b = true <-> a = b.
+Proof.
+  destruct a as [ax ay], b as [bx b_y]. unfold point_eqb. cbn [px py]. split.
+  - intros H. f_equal; lia.
+  - intros H. inversion H. lia.
+Qed.
+
+Lemma point_eqb_refl a : point_eqb a a = true.
+Proof. apply point_eqb_eq. reflexivity. Qed.
+
+Lemma last_write_none q ws : (forall c, ~ In (q, c) ws) -> last_write q ws = None.
+Proof.
+  induction ws as [|[p c] t IH]; intros H; cbn [last_write]; [reflexivity|].
+  rewrite IH by (intros c' Hc; apply (H c'); right; exact Hc).
+  destruct (point_eqb p q) eqn:E; [|reflexivity].
+  apply point_eqb_eq in E. subst p. exfalso. apply (H c). left. reflexivity.
+Qed.
+
+Lemma last_write_unique q v ws : NoDup (map fst ws) -> In (q, v) ws -> last_write q ws = Some v.
+Proof.
+  induction ws as [|[p c] t IH]; intros Hnd Hin; [destruct Hin|].
+  cbn [map fst] in Hnd. inversion Hnd as [|? ? Hnotin Hnd']; subst. cbn [last_write].
+  destruct Hin as [Heq|Hin].
+  - inversion Heq; subst. rewrite last_write_none.
+    + rewrite point_eqb_refl. reflexivity.
+    + intros c' Hc. apply Hnotin. apply in_map_iff. exists (q, c'). split; [reflexivity|exact Hc].
+  - rewrite (IH Hnd' Hin). reflexivity.
+Qed.
+
+Lemma last_write_filter (f : point -> bool) q ws :
+  last_write q (filter (fun w => f (fst w)) ws) = if f q then last_write q ws else None.
+Proof.
+  induction ws as [|[p c] t IH]; cbn [filter last_write fst]; [destruct (f q); reflexivity|].
+  destruct (f p) eqn:Ep; cbn [last_write]; rewrite IH.
+  - destruct (f q) eqn:Eq; [reflexivity|].
+    destruct (point_eqb p q) eqn:E; [|reflexivity]. apply point_eqb_eq in E. congruence.
+  - destruct (f q) eqn:Eq; [|reflexivity].
+    destruct (last_write q t); [reflexivity|].
+    destruct (point_eqb p q) eqn:E; [|reflexivity]. apply point_eqb_eq in E. congruence.
+Qed.
+
+(* pairing a list of points g(p) with colours cs that are the values f(p) *)
+Lemma zip_map_some {A} (g : A -> point) (f : A -> option Z) : forall (l : list A) (cs : list Z),
+  map Some cs = map f l ->
+  map fst (zip (map g l) cs) = map g l /\
+  (forall a c, In (a, c) (zip (map g l) cs) <-> exists p, In p l /\ a = g p /\ f p = Some c).
+Proof.
+  induction l as [|x l IH]; intros [|c0 cs] Hm; cbn [map] in Hm; try discriminate.
+  - split; [reflexivity|]. intros a c. cbn [map zip In]. split; [tauto|intros (p & [] & _)].
+  - inversion Hm as [[Hc Hm']]. destruct (IH cs Hm') as (IH1 & IH2).
+    split; [cbn [map zip fst]; f_equal; exact IH1|].
+    intros a c. cbn [map zip In]. rewrite IH2. split.
+    + intros [Heq|(p & Hp & Ha & Hf)].
+      * inversion Heq; subst. exists x. split; [left; reflexivity|]. split; [reflexivity|]. symmetry; assumption.
+      * exists p. split; [right; assumption|]. split; assumption.
+    + intros (p & [Hx|Hp] & Ha & Hf).
+      * subst p. left. rewrite Ha. f_equal. congruence.
+      * right. exists p. split; [assumption|]. split; assumption.
+Qed.
+
+Lemma row_major_shift ox oy w h :
+  row_major ox (ox + w) oy (oy + h) = map (fun p => padd p (P ox oy)) (row_major 0 w 0 h).
+Proof.
+  rewrite map_row_major. unfold row_major, padd. cbn [px py].
+  assert (Hr : forall a n, range a (a + n) = map (fun x => x + a) (range 0 n)).
+  { intros a n. unfold range. replace (a + n - a) with n by lia. replace (n - 0) with n by lia.
+    rewrite range_from_shift. apply map_ext. intros; lia. }
+  rewrite (Hr oy h), (Hr ox w). rewrite flat_map_concat_map, map_map, <- flat_map_concat_map.
+  apply flat_map_ext. intros y. rewrite map_map. reflexivity.
+Qed.
+
+Lemma row_major_nodup x0 x1 y0 y1 : NoDup (row_major x0 x1 y0 y1).
+Proof. apply lt_yx_irrefl_sorted, row_major_sorted. Qed.
+
+Lemma padd_psub q o : padd (psub q o) o = q.
+Proof. destruct q as [qx qy], o as [ox oy]. unfold padd, psub. cbn [px py]. f_equal; lia. Qed.
+
+Lemma psub_padd p o : psub (padd p o) o = p.
+Proof. destruct p as [qx qy], o as [ox oy]. unfold padd, psub. cbn [px py]. f_equal; lia. Qed.
+
+(* one fill_contiguous call over the box (o, w x h) whose colours are f over the row-major grid *)
+Lemma render_grid bb o w h (f : point -> option Z) cs q :
+  point_ok o -> size_ok (S w h) ->
+  map Some cs = map f (row_major 0 w 0 h) ->
+  render bb [FillContiguous (R o (S w h)) cs] q =
+  if contains bb q && contains (R o (S w h)) q then f (psub q o) else None.
+Proof.
+  intros Ho Hs Hm. unfold render, writes. cbn [flat_map call_writes]. rewrite app_nil_r.
+  rewrite (last_write_filter (contains bb)).
+  destruct (contains bb q); cbn [andb]; [|reflexivity].
+  assert (Hpts : points (R o (S w h)) = map (fun p => padd p o) (row_major 0 w 0 h)).
+  { rewrite points_row_major by (split; assumption). cbn [tl sz sw sh].
+    destruct (is_zero_sized (R o (S w h))) eqn:Ez.
+    - unfold is_zero_sized in Ez. cbn [sz sw sh] in Ez. rewrite row_major_empty by lia. reflexivity.
+    - destruct o as [ox oy]. cbn [px py]. apply row_major_shift. }
+  rewrite Hpts. destruct (zip_map_some (fun p => padd p o) f _ _ Hm) as (Hfst & Hin).
+  destruct (contains (R o (S w h)) q) eqn:Ec.
+  - apply contains_spec in Ec. cbn [tl sz sw sh] in Ec.
+    assert (Hp : In (psub q o) (row_major 0 w 0 h)).
+    { apply In_row_major. unfold psub. cbn [px py]. lia. }
+    assert (Hf : exists c, f (psub q o) = Some c).
+    { apply (in_map f) in Hp. rewrite <- Hm in Hp. apply in_map_iff in Hp. destruct Hp as (c & Hc & _). eauto. }
+    destruct Hf as (c & Hf). rewrite Hf. apply last_write_unique.
+    + rewrite Hfst. apply FinFun.Injective_map_NoDup; [|apply row_major_nodup].
+      intros a b Hab. rewrite <- (psub_padd a o), <- (psub_padd b o), Hab. reflexivity.
+    + apply Hin. exists (psub q o). split; [assumption|]. split; [symmetry; apply padd_psub|assumption].
+  - apply last_write_none. intros c Hc. apply Hin in Hc. destruct Hc as (p & Hp & Hq & _).
+    apply In_row_major in Hp. subst q.
+    assert (contains (R o (S w h)) (padd p o) = true); [|congruence].
+    apply contains_spec. unfold padd. cbn [tl sz sw sh px py]. lia.
+Qed.
+
+(* pixel() of a drawable: None exactly outside its bounding box *)
+Theorem d_pixel_none_iff d : forall p,
+  d_wf d -> (d_pixel d p = None <-> contains (d_box d) p = false).
+Proof.
+  induction d as [img|parent IH a]; intros p H; cbn [d_wf d_pixel] in *.
+  - apply pixel_none_iff. assumption.
+  - unfold d_box. cbn [d_size]. destruct (contains (origin_box (sz a)) p) eqn:Ec; [|tauto].
+    split; [|discriminate]. intros Hn. exfalso.
+    destruct H as (Hp & Hnn & [Hz|Hin]).
+    + apply origin_box_contains in Ec. unfold is_zero_sized in Hz. lia.
+    + apply (IH _ Hp) in Hn. apply origin_box_contains in Ec.
+      destruct Hin as (Hw & Hh & Hx & Hy & Hxw & Hyh).
+      assert (contains (d_box parent) (padd p (tl a)) = true); [|congruence].
+      apply origin_box_contains. unfold padd. cbn [px py]. lia.
+Qed.
+
+Lemma image_box_eq d o : image_box (Img d o) = R (padd (P 0 0) o) (d_size d).
+Proof. reflexivity. Qed.
+
+Lemma padd_zero_l o : padd (P 0 0) o = o.
+Proof. destruct o as [ox oy]. reflexivity. Qed.
+
+(* image_draw_spec: drawing Image(d, o) sets q to pixel(q - o) for q - o in the drawable's box (and inside
+   the target), and touches nothing else *)
+Theorem image_draw_spec d o bb q :
+  d_wf d -> point_ok o ->
+  render bb (image_draw (Img d o)) q =
+  if contains bb q && contains (image_box (Img d o)) q then d_pixel d (psub q o) else None.
+Proof.
+  intros H Ho. unfold image_draw. cbn [im_drawable im_offset]. rewrite image_box_eq, padd_zero_l.
+  destruct (is_zero_sized (d_box d)) eqn:Ez.
+  - (* nothing to draw: either no call, or a call with an empty area *)
+    assert (Hc : contains (R o (d_size d)) q = false).
+    { destruct (contains (R o (d_size d)) q) eqn:Ec; [|reflexivity]. apply contains_spec in Ec.
+      unfold is_zero_sized, d_box, origin_box in Ez. cbn [tl sz] in *. lia. }
+    rewrite Hc, andb_false_r.
+    destruct (d_draw_spec d H) as [(cs & -> & Hm)|(-> & _)]; [|reflexivity].
+    cbn [map translated_call]. unfold render, writes. cbn [flat_map call_writes].
+    unfold points. replace (is_zero_sized (translate_rect (d_box d) o)) with true by (symmetry; exact Ez).
+    reflexivity.
+  - pose proof (d_size_ok d H Ez) as Hs.
+    destruct (d_draw_spec d H) as [(cs & -> & Hm)|(_ & Hz)]; [|congruence].
+    cbn [map translated_call]. unfold d_box, origin_box, translate_rect. cbn [tl sz]. rewrite padd_zero_l.
+    destruct (d_size d) as [w h] eqn:Es. cbn [sw sh] in Hm.
+    apply render_grid; assumption.
 Qed.
